@@ -825,6 +825,10 @@ class Exec(Engine):
             if n.inner:
                 kw['idom'] = fresh('hvidom', n.idom.sort())
             st.setnode(ref, n.replace(**kw))
+            if n.keys is not None:
+                # a dict whose insertion order is tracked keeps being tracked: an arbitrary order consistent with
+                # the arbitrary new domain
+                self.world.dict_order(self, st, ref)
         elif isinstance(n, Obj):
             f = {k: self.fresh_like(st, v, k) for k, v in n.fields.items()}
             st.setnode(ref, Obj(n.cls, f))
@@ -982,14 +986,17 @@ class Exec(Engine):
         if (isinstance(s.value, ast.Dict) and not s.value.keys and len(s.targets) == 1
                 and isinstance(s.targets[0], ast.Name)):
             ty = (self.cur.extra.get('locals') or {}).get(s.targets[0].id)
-            if ty is None or not ty.startswith('Dict['):
+            if ty is None or not ty.startswith(('Dict[', 'ODict[')):
                 raise EngineError('%s:%d: empty dict literal: declare locals={%r: "Dict[K,V]"} in the contract'
                                   % (self.rel, s.lineno, s.targets[0].id))
-            k, v = [x.strip().lower() for x in ty[5:-1].split(',', 1)]
+            k, v = [x.strip().lower() for x in ty[ty.index('[') + 1:-1].split(',', 1)]
             st = st.copy()
             ks = self.sort_of_kind(k)
-            st.env[s.targets[0].id] = st.alloc(Dict(k, v, z3.K(ks, z3.BoolVal(False)),
-                                                    fresh('emptyval', z3.ArraySort(ks, self.sort_of_kind(v)))))
+            d = Dict(k, v, z3.K(ks, z3.BoolVal(False)), fresh('emptyval', z3.ArraySort(ks, self.sort_of_kind(v))))
+            if ty.startswith('ODict['):
+                # insertion order is tracked from the start (keys[i] = i-th inserted key, pos = its inverse)
+                d = d.replace(keys=fresh('keys', z3.ArraySort(I, ks)), nkeys=z3.IntVal(0), pos=fresh('pos', z3.ArraySort(ks, I)))
+            st.env[s.targets[0].id] = st.alloc(d)
             return [Result(st)]
         if (isinstance(s.value, ast.List) and not s.value.elts and len(s.targets) == 1
                 and isinstance(s.targets[0], ast.Name)
